@@ -46,9 +46,10 @@ func cfgFor(id string) propCfg {
 }
 
 var (
-	root    string
-	goBin   = "go1.26.8"
-	started = time.Now()
+	altModfile string // set when VERIF_REPO points the build at a scratch copy
+	root       string
+	goBin      = "go1.26.8"
+	started    = time.Now()
 )
 
 func goEnv() []string {
@@ -173,6 +174,7 @@ func main() {
 		defer os.Remove(mf)
 		defer os.Remove(strings.TrimSuffix(mf, ".mod") + ".sum")
 		args = append(args, "-modfile", mf)
+		altModfile = mf
 		bin = filepath.Join(bdir, fmt.Sprintf("%s-alt-%d.test", pkg, os.Getpid()))
 		args[5] = bin
 		defer os.Remove(bin)
@@ -224,19 +226,22 @@ func main() {
 
 	// 3. merge
 	var (
-		evals, counted  int64
-		fps             = map[uint64]struct{}{}
-		classes         = map[string]int64{}
-		known           = map[string]int64{}
-		excluded        = map[string]int64{}
-		parts           = map[string]*part{}
-		partShards      = map[string]int{}
-		samples         []struct{ FP uint64; Val json.RawMessage }
-		violations      []violation
-		knownConfirmed  []string
-		oracleFail      []string
-		inconclusive    []string
-		requested, ran  int64
+		evals, counted int64
+		fps            = map[uint64]struct{}{}
+		classes        = map[string]int64{}
+		known          = map[string]int64{}
+		excluded       = map[string]int64{}
+		parts          = map[string]*part{}
+		partShards     = map[string]int{}
+		samples        []struct {
+			FP  uint64
+			Val json.RawMessage
+		}
+		violations     []violation
+		knownConfirmed []string
+		oracleFail     []string
+		inconclusive   []string
+		requested, ran int64
 	)
 	for k := 0; k < nsh; k++ {
 		data, err := os.ReadFile(outs[k])
@@ -345,19 +350,19 @@ func main() {
 			"seed":        int64(seed & 0x7fffffffffffffff),
 			"level":       "exploration",
 			"coverage": map[string]any{
-				"evaluations":         evals,
-				"distinct_nontrivial": counted + int64(len(fps)),
-				"rule":                rule,
-				"samples":             sampleVals,
-				"classes":             classes,
-				"exhaustive_parts":    partList,
-				"exhaustive":          false,
-				"known_suppressed":    known,
-				"excluded_known":      excluded,
+				"evaluations":           evals,
+				"distinct_nontrivial":   counted + int64(len(fps)),
+				"rule":                  rule,
+				"samples":               sampleVals,
+				"classes":               classes,
+				"exhaustive_parts":      partList,
+				"exhaustive":            false,
+				"known_suppressed":      known,
+				"excluded_known":        excluded,
 				"rapid_cases_requested": requested,
 				"rapid_cases_completed": ran,
-				"shards":              nsh,
-				"fuzz":                fuzzInfo,
+				"shards":                nsh,
+				"fuzz":                  fuzzInfo,
 			},
 			"assumptions": []string{
 				"reference model harness/ref (written from RFC 8259/7493/8785/6901 and ECMA-262) is correct; it is cross-checked against std encoding/json and strconv where the specifications coincide",
@@ -555,7 +560,12 @@ func runFuzz(hdir, pkg, id, spec string) (map[string]any, []violation) {
 	d, _ := time.ParseDuration(dur)
 	ctx, cancel := context.WithTimeout(context.Background(), d+5*time.Minute)
 	defer cancel()
-	cmd := exec.CommandContext(ctx, goBin, "test", "-tags", "verif", "-run", "^$", "-fuzz", "^"+target+"$", "-fuzztime", dur, "./"+pkg)
+	fargs := []string{"test", "-tags", "verif", "-run", "^$", "-fuzz", "^" + target + "$", "-fuzztime", dur}
+	if altModfile != "" {
+		fargs = append(fargs, "-modfile", altModfile)
+	}
+	fargs = append(fargs, "./"+pkg)
+	cmd := exec.CommandContext(ctx, goBin, fargs...)
 	cmd.Dir = hdir
 	cmd.Env = append(goEnv(), "VERIF_ROOT="+root, "VERIF_FUZZING=1")
 	out, err := cmd.CombinedOutput()
